@@ -5,7 +5,7 @@ from harness import common as C
 from harness import eofgen as G
 from harness import zoo as Z
 
-ANCHORS = ["T3", "T5cpcca", "T5whiten", "T8fwd", "T7chain"]
+ANCHORS = ["T3", "T5cpcca", "T5whiten", "T8fwd", "T7chain", "T7inplace", "T7hist"]
 MODELS = ["CpccaCase"]
 RULE = ("pairs of fields with equal sample count, real and complex, feature counts incl. p > n after PCA, alpha grid in [0,1]^2, use_pca on/off "
         "with integer / fractional / 'all' mode counts, n_modes in 1..rank, MCA/CCA/RDA/CPCCA and Complex/Hilbert variants; non-trivial: >= 6 "
@@ -187,6 +187,21 @@ def run_models(ctx, rng, N):
             rho = independent_sigma(Xc, Yc, 0.0, 0.0, ddof=1)[:k]
             if not np.allclose(want, rho, atol=1e-7):
                 ctx.violation(key + ":canonical-correlations", "CCA: correlation of paired scores %r differs from the canonical correlations %r" % (want[:3], rho[:3]), replay)
+        # the model's statements still hold after a rotator was fitted on top of it (the rotator reads the model's results, it does not own them)
+        if k >= 2 and i % 3 == 0 and Z.rotator_for(name) is not None:
+            try:
+                Z.rotator_for(name)(n_modes=k, power=int(rng.choice([1, 2])), max_iter=200, rtol=1e-6).fit(m)
+            except RuntimeError:
+                pass
+            except Exception as e:
+                ctx.violation(key + ":rotator-error:" + C.errkind(e), "rotator on %s%r raised %r" % (name, kw, e), replay)
+            S1b = m.data["scores1"].transpose("sample", "mode").values
+            S2b = m.data["scores2"].transpose("sample", "mode").values
+            Csb = S1b.conj().T @ S2b / (n - 1)
+            ctx.dist["c09:rechecked-after-rotator-fit"] += 1
+            if not np.allclose(Csb, np.diag(m.data["singular_values"].values), atol=1e-7 * scale):
+                ctx.violation(key + ":score-crosscov-after-rotator", "%s%r: after a rotator was fitted on the model, the cross-covariance of the model's score sets is no longer "
+                              "diag(singular values) (max dev %.3g)" % (name, kw, float(np.abs(Csb - np.diag(sig)).max())), dict(replay, rotator_fitted=True))
         # Coq correspondence of the core (exact backend only: small data)
         if name in ("CPCCA", "MCA", "CCA", "RDA", "ComplexCPCCA", "ComplexMCA"):
             Xw, Yw = d["input_data1"].transpose("sample", m.feature_name[0]).values, d["input_data2"].transpose("sample", m.feature_name[1]).values
@@ -213,9 +228,10 @@ def run_models(ctx, rng, N):
                 if name in ("MCA", "ComplexMCA") and len(scf_cases[cplx]) < 40:
                     # the residual formula of squared_covariance_fraction() as the model states it (Cpcca.scf_modes), identity whitening
                     scfv = np.asarray(m.squared_covariance_fraction().values)
-                    scf_cases[cplx].append("mkSC %d %d %d %d %s %s %s %s %s %s" % (
+                    fvx, fvy = np.asarray(m.fraction_variance_X_explained_by_X().values), np.asarray(m.fraction_variance_Y_explained_by_Y().values)
+                    scf_cases[cplx].append("mkSC %d %d %d %d %s %s %s %s %s %s %s %s" % (
                         n, q1, q2, k, f(Xw), f(Yw), f(d["components1"].transpose(m.feature_name[0], "mode").values),
-                        f(d["components2"].transpose(m.feature_name[1], "mode").values), G.c_scalar(tsc_m + 0j if cplx else tsc_m, cplx), v(scfv)))
+                        f(d["components2"].transpose(m.feature_name[1], "mode").values), G.c_scalar(tsc_m + 0j if cplx else tsc_m, cplx), v(scfv), v(fvx), v(fvy)))
     ctx.extra["scf_cases"] = scf_cases
     return cases_r, cases_c, meta_r, meta_c
 
@@ -274,7 +290,7 @@ def run(ctx):
                 tot += cnt
                 bad += C.parse_int_list((C.parse_evals(out) or [""])[0])
             ctx.traces += tot
-            ctx.oblige("correspondence:squared covariance fraction, residual formula of the source (Cpcca.scf_modes) vs squared_covariance_fraction(): %d MCA / ComplexMCA fits" % tot,
+            ctx.oblige("correspondence:squared covariance fraction and fractions of variance explained, residual formulas of the source (Cpcca.scf_modes, fve_src) vs the accessors: %d MCA / ComplexMCA fits" % tot,
                        "correspondence", ok2 and not bad and tot > 0, "%d disagreeing fits" % len(bad))
 
 
